@@ -333,7 +333,47 @@ fn run_felt_mutants(ctx: &mut Ctx) {
     }
 }
 
+/// Thorough: second-order mutants MUT(MUT(s)) of the smallest programs through the whole pipeline, both solvers.
+fn run_pairs(ctx: &mut Ctx) {
+    if ctx.tier != Tier::Thorough {
+        return;
+    }
+    let cfg = crate::sierra::PAIR_CFG;
+    for (name, p) in &crate::sierra::pair_seeds() {
+        for m1 in mutations(p, &cfg) {
+            ctx.case(
+                || json!({"space":"second-order-mutants","program":name,"first":m1.describe()}),
+                |ctx| {
+                    let q1 = apply(p, &m1);
+                    for m2 in mutations(&q1, &cfg) {
+                        if !ctx.sub(|| json!({"program":name,"first":m1.describe(),"second":m2.describe(),"sig_hint":format!("{}+{}", sig_hint(p, &m1), sig_hint(&q1, &m2))})) {
+                            continue;
+                        }
+                        let q = apply(&q1, &m2);
+                        ctx.count("second_order_mutants", 1);
+                        for linear in [true, false] {
+                            ctx.count("evaluations", 1);
+                            match ctx.guarded(|| pipeline(&q, linear)) {
+                                Ok(st) => ctx.outcome(&format!("pair:{st:?}/{}", if linear { "linear" } else { "legacy" })),
+                                Err((loc, msg)) => {
+                                    ctx.outcome("panic");
+                                    ctx.violation(
+                                        panic_sig(&loc, &msg),
+                                        format!("panic at {loc}: {}", msg.chars().take(200).collect::<String>()),
+                                        json!({"program":name,"first":m1.describe(),"second":m2.describe(),"solver": if linear {"linear"} else {"legacy"},"sierra":q.to_string()}),
+                                    );
+                                }
+                            }
+                        }
+                    }
+                },
+            );
+        }
+    }
+}
+
 fn run(ctx: &mut Ctx) {
+    run_pairs(ctx);
     run_program_mutants(ctx);
     run_felt_mutants(ctx);
     crate::c14inst::run_type_lattice(ctx);
@@ -343,7 +383,7 @@ fn run(ctx: &mut Ctx) {
 pub static C14: CheckDef = CheckDef {
     id: "C14",
     level: "exploration",
-    rule: "(a) every single-point mutant (statement delete/duplicate/swap; libfunc id -> other declared libfunc; argument/result/param var -> other var or fresh; branch target -> any statement or fallthrough; entry point -> any statement; return list swap/truncate/extend; type/libfunc/function declaration delete/duplicate/swap/move-to-end; generic arg -> +-1,0,-1,2^128,2^251,-2^127,u64::MAX,other type/kind, dropped, duplicated; signature type -> other declared type; declared-type-info bit flips) of every corpus Sierra program up to the statement bound (quick: e2e programs <=60 statements with capped replacement alphabets; thorough: e2e + *.sierra files <=400 statements, full alphabets <=120 statements) through ProgramRegistryInfo::new -> calc_metadata (linear AND legacy equation solvers) -> compile; (b) for corpus programs serialized as a contract class: every position of the uncompressed felt stream and of the compressed container x 12-14 boundary replacements + delete + duplicate + truncate, and every felt vector of length <=3 (4) over a 7-value set with and without a valid version header, through ContractClass::extract_sierra_program -> CasmContractClass::from_contract_class. (c) the instantiation lattice (programs no compiler produces): every generic type id (70) x every generic-argument tuple of length <=2, user-type-led tuples of length 3 and (quick <=4, thorough <=6)-tuples over a 5-symbol mixed alphabet, arguments drawn from ~45 accepted edge types (zero-sized and empty structs, empty enum, consts of every shape incl. zero-sized / nested / enum / NonZero consts, BoundedInt<0,0>, circuit gates and circuits incl. the empty circuit), 8 boundary values, user types and user functions, each declared through ProgramRegistryInfo::new; then every generic libfunc id of CoreLibfunc::supported_ids() x the same tuples over the ~150-type universe, specialised with the real `specialize`, and every accepted instantiation wrapped in a function that takes the libfunc's parameters and returns / drops its outputs (fallthrough branch laid out first) and pushed through the whole pipeline with both solvers. Oracle: returns Ok/Err; panic, abort, stack overflow, watchdog or address-space cap = violation keyed by panic site. distinct_nontrivial = distinct mutants.",
+    rule: "(a) every single-point mutant (statement delete/duplicate/swap; libfunc id -> other declared libfunc; argument/result/param var -> other var or fresh; branch target -> any statement or fallthrough; entry point -> any statement; return list swap/truncate/extend; type/libfunc/function declaration delete/duplicate/swap/move-to-end; generic arg -> +-1,0,-1,2^128,2^251,-2^127,u64::MAX,other type/kind, dropped, duplicated; signature type -> other declared type; declared-type-info bit flips) of every corpus Sierra program up to the statement bound (quick: e2e programs <=60 statements with capped replacement alphabets; thorough: e2e + *.sierra files <=400 statements, full alphabets <=120 statements) through ProgramRegistryInfo::new -> calc_metadata (linear AND legacy equation solvers) -> compile; (b) for corpus programs serialized as a contract class: every position of the uncompressed felt stream and of the compressed container x 12-14 boundary replacements + delete + duplicate + truncate, and every felt vector of length <=3 (4) over a 7-value set with and without a valid version header, through ContractClass::extract_sierra_program -> CasmContractClass::from_contract_class. (c) the instantiation lattice (programs no compiler produces): every generic type id (70) x every generic-argument tuple of length <=2, user-type-led tuples of length 3 and (quick <=4, thorough <=6)-tuples over a 5-symbol mixed alphabet, arguments drawn from ~45 accepted edge types (zero-sized and empty structs, empty enum, consts of every shape incl. zero-sized / nested / enum / NonZero consts, BoundedInt<0,0>, circuit gates and circuits incl. the empty circuit), 8 boundary values, user types and user functions, each declared through ProgramRegistryInfo::new; then every generic libfunc id of CoreLibfunc::supported_ids() x the same tuples over the ~150-type universe, specialised with the real `specialize`, and every accepted instantiation wrapped in a function that takes the libfunc's parameters and returns / drops its outputs (fallthrough branch laid out first) and pushed through the whole pipeline with both solvers. (d) thorough: second-order mutants MUT(MUT(s)) of the <=200 smallest programs (<=9 statements; capped alphabets), both solvers. Oracle: returns Ok/Err; panic, abort, stack overflow, watchdog or address-space cap = violation keyed by panic site. distinct_nontrivial = distinct mutants.",
     assumptions: &["corpus programs are seeds; the mutation operators carry the quantifier", "4 GiB address-space cap and 60 s per 500-mutant item stand for 'allocates without bound' / 'hangs'"],
     run,
     stack_mb: 8,
